@@ -38,7 +38,8 @@ EXPLANATION = (
     "memory) is served by its branch in BOTH memories. "
     "R-C18-echo: every response constructor passes the request's type_ and opaque (mapped through the MemRespMsg field "
     "order extracted from MemMsg.py), test=0, len=req.len for reads/AMOs, zero-extended read data / old AMO value. "
-    "R-C18-pairing: one update_once block, one MagicMemoryFL instance, loop visits every port once and serves ports "
+    "R-C18-pairing: one update_once block, one MagicMemoryFL instance built with the wrapper's own mem_nbytes, loop ranges "
+    "over exactly 0..nports-1 (evaluated for nports 1..4 and longer message-type lists) and serves ports "
     "independently (no break/return in the port loop, no loop-carried variable), per port i the "
     "request is taken and the memory touched only under a guard implying request-valid AND response-ready of the SAME "
     "index, exactly one response on every path, ports wired index-to-index. "
@@ -290,7 +291,7 @@ def rule_amo_table(repo):
     problems = {}
     for name in amos:
         code = types[name]
-        for nb in (1, 2, 4, 8):
+        for nb, A in ((1, 1000), (2, 1000), (4, 1000), (8, 1000), (4, 1005), (2, 1003), (8, 1001)):
             ev_log = []
             DATA = ('request data',)
 
@@ -317,11 +318,11 @@ def rule_amo_table(repo):
             it = FnInterp(env, funcs=funcs)
             r.evaluations += 1
             try:
-                ret = it.apply(Closure(f, env), [None, BV(4, code), BV(16, 1000), nb, DATA])
+                ret = it.apply(Closure(f, env), [None, BV(4, code), BV(16, A), nb, DATA])
                 err = None
             except Raised as ex:
                 ret, err = None, ex.what
-            ctx = f"{name}, {nb} byte(s)"
+            ctx = f"{name}, {nb} byte(s) at address {A}"
             reads = [e for e in ev_log if e[0] == 'read']
             writes = [e for e in ev_log if e[0] == 'write']
             fs = [e for e in ev_log if e[0] == 'f']
@@ -333,12 +334,13 @@ def rule_amo_table(repo):
                                             f"operation is one read of the old value and one write of the result")
                 if not reads or not writes:
                     continue
-            if reads[0][1:3] != (1000, nb) or ev_log.index(reads[0]) > ev_log.index(writes[0]):
-                problems.setdefault('read', f"{ctx}: the old value must be read from (addr, nbytes) before the store; seen "
+            if reads[0][1:3] != (A, nb) or ev_log.index(reads[0]) > ev_log.index(writes[0]):
+                problems.setdefault('read', f"{ctx}: the old value must be read from exactly (addr, nbytes) = ({A}, {nb}) before the store "
+                                            f"(no arithmetic on the address other than int()); seen "
                                             f"{[e[:3] for e in ev_log if e[0] != 'f']}")
-            if writes[0][1:3] != (1000, nb):
+            if writes[0][1:3] != (A, nb):
                 problems.setdefault('write', f"{ctx}: the result is written to {writes[0][1:3]}, must go back to the bytes read "
-                                             f"(1000, {nb})")
+                                             f"({A}, {nb})")
             if len(fs) != 1 or fs[0][1] != code:
                 problems.setdefault('select', f"{ctx}: the function applied is {'none' if not fs else 'the one of code ' + str(fs[0][1])}, "
                                               f"must be AMO_FUNS[{code}]")
@@ -1146,19 +1148,41 @@ def _connects(c):
     return out
 
 
-def _visits(c, it_expr, n, r):
-    """ports visited by the loop for nports == n"""
+def _visits(c, it_expr, n, r, L=None):
+    """ports visited by the loop for nports == n (and a per-port type list with L entries, default n)"""
     env = {p: n for p in c.params}
+    # the parameter(s) holding the (request class, response class) pairs: a list of L pairs
+    for st in c.con.body:
+        if isinstance(st, ast.Assign) and isinstance(st.value, ast.ListComp) and len(st.value.generators) == 1:
+            it0 = st.value.generators[0].iter
+            if isinstance(it0, ast.Name) and it0.id in c.params and isinstance(st.value.generators[0].target, ast.Tuple):
+                env[it0.id] = [(('req', k), ('resp', k)) for k in range(n if L is None else L)]
+    funcs = dict(BASE_FUNCS, len=len)
+
+    def resolve(target_text):
+        defs = [st for st in c.con.body if isinstance(st, ast.Assign) and any(norm(t) == target_text for t in st.targets)]
+        if len(defs) == 1:
+            v = defs[0].value
+            try:
+                return Interp(dict(env), funcs=funcs, leaf=leaf).ev(v)
+            except AnalysisError:
+                if not isinstance(v, ast.ListComp):
+                    raise
+                # a per-port list of components: only its length matters here
+                shell = ast.ListComp(elt=ast.Constant(value=None), generators=v.generators)
+                return Interp(dict(env), funcs=funcs, leaf=leaf).ev(ast.copy_location(shell, v))
+        raise AnalysisError(f"cannot resolve {target_text} in {c.cls}.construct")
 
     def leaf(e):
         if isinstance(e, ast.Attribute) and norm(e.value) == c.me:
-            defs = [st for st in c.con.body if isinstance(st, ast.Assign) and any(norm(t) == norm(e) for t in st.targets)]
-            if len(defs) == 1:
-                return Interp(env, funcs=BASE_FUNCS).ev(defs[0].value)
-            raise AnalysisError(f"cannot resolve {norm(e)} in {c.cls}.construct")
+            return resolve(norm(e))
+        if isinstance(e, ast.Name) and isinstance(e.ctx, ast.Load) and e.id not in env and e.id not in funcs \
+                and e.id not in ('range', 'reversed', 'True', 'False', 'None'):
+            if any(isinstance(st, ast.Assign) and any(norm(t) == e.id for t in st.targets) for st in c.con.body):
+                return resolve(e.id)
         return NotImplemented
     r.evaluations += 1
-    return Interp(env, funcs=BASE_FUNCS, leaf=leaf).iter_values(it_expr)
+    return Interp(dict(env), funcs=funcs, leaf=leaf).iter_values(it_expr)
 
 
 def rule_pairing(repo):
@@ -1175,6 +1199,32 @@ def rule_pairing(repo):
         else:
             r.bad(c.m, cq, f'{len(c.fl_ctors)} MagicMemoryFL constructions', "all ports must share exactly one MagicMemoryFL "
                   "instance created once in construct (a per-port or re-created memory loses writes of other ports)", c.con.lineno)
+        # P1b the wrapper hands its own same-named construct parameters (mem_nbytes) to the FL memory it builds
+        flc = repo.mod(FL).get_func('MagicMemoryFL.construct')
+        fl_params = [a.arg for a in flc.args.args[1:]]
+        for ct in c.fl_ctors:
+            bound = {}
+            for pn, a in zip(fl_params, ct.args):
+                bound[pn] = a
+            for kw in ct.keywords:
+                if kw.arg is not None:
+                    bound[kw.arg] = kw.value
+            for pn in fl_params:
+                if pn not in c.params:
+                    continue
+                got = bound.get(pn)
+                if got is not None:
+                    cdefs = {st.targets[0].id: st.value for st in c.con.body if isinstance(st, ast.Assign) and len(st.targets) == 1
+                             and isinstance(st.targets[0], ast.Name)}
+                    got = _deref(got, {k: v for k, v in cdefs.items() if k != pn})
+                cons = f'{norm(ct)} forwards {pn}'
+                if got is not None and isinstance(got, ast.Name) and got.id == pn:
+                    r.ok(c.m, cq, cons)
+                else:
+                    r.bad(c.m, cq, cons, f"{cls}( ..., {pn}=N ) builds its memory with "
+                          f"{'the default ' + pn if got is None else norm(got)} instead of the {pn} it was given: the size requested "
+                          f"by the user is ignored (the sibling memory forwards it; accesses above the default size fail / a "
+                          f"smaller memory is silently larger)", ct.lineno)
         for call in c.memcalls(c.con):
             if c.mem is not None and norm(call.func.value) != c.mem:
                 r.bad(c.m, qualname(enclosing(call, (ast.FunctionDef,))), norm(call)[:70],
@@ -1190,18 +1240,19 @@ def rule_pairing(repo):
                   "once per cycle (a combinational block may be re-executed and would repeat memory side effects)", c.up.lineno)
         # P3 each port once
         bad = None
-        for n in (1, 2, 3, 4):
+        for n, L in ((1, 1), (2, 2), (3, 3), (4, 4), (1, 2), (2, 3), (3, 5)):
             try:
-                vis = _visits(c, c.loop.iter, n, r)
+                vis = _visits(c, c.loop.iter, n, r, L)
             except Raised as ex:
                 vis = [f'raises {ex.what}']
             if sorted(vis, key=str) != list(range(n)):
-                bad = (n, vis)
+                bad = (n, L, vis)
                 break
         cons = f'for {c.i} in {norm(c.loop.iter)}'
         if bad:
-            r.bad(c.m, c.q, cons, f"with {bad[0]} ports the loop visits {bad[1]}: every port must be served exactly once per cycle",
-                  c.loop.lineno)
+            r.bad(c.m, c.q, cons, f"with nports={bad[0]} (and {bad[1]} entries in the message-type list) the loop visits {bad[2]}: "
+                  f"the port loop must range over exactly the ports that exist, 0..nports-1, each served once per cycle "
+                  f"(a port index beyond nports raises IndexError, a missing one is never served)", c.loop.lineno)
         else:
             r.ok(c.m, c.q, cons)
         # P3b ports are served independently: no way to leave the port loop early, no variable carried from one port to the next
@@ -2452,6 +2503,10 @@ MUTANTS = [
         dict(file=CL, old="        if s.req_qs[i].deq.rdy() and s.resp_qs[i].enq.rdy():\n", new="        if not s.req_qs[i].deq.rdy():\n          continue\n\n        if s.resp_qs[i].enq.rdy():\n"),
         dict(file=CL, old="          s.resp_qs[i].enq( resp )\n", new="          s.resp_qs[i].enq( resp )\n\n        else:\n          break\n")]),
     _m('stream-response-carried-to-next-port', STREAM, "          else:\n            assert False\n", "          else:\n            pass\n", 'R-C18-pairing'),
+    _m('stream-memory-size-not-forwarded', STREAM, "s.mem = MagicMemoryFL( mem_nbytes )", "s.mem = MagicMemoryFL()", 'R-C18-pairing'),
+    _m('cl-memory-size-halved', CL, "s.mem = MagicMemoryFL( mem_nbytes )", "s.mem = MagicMemoryFL( mem_nbytes >> 1 )", 'R-C18-pairing'),
+    _m('fl-amo-aligns-address', FL, "    ret = s.read( addr, nbytes )\n    s.write( addr, nbytes, AMO_FUNS", "    addr = int(addr) & ~(nbytes-1)\n    ret = s.read( addr, nbytes )\n    s.write( addr, nbytes, AMO_FUNS", 'R-C18-amo-table'),
+    _m('cl-port-loop-over-type-table', CL, "for i in range(s.nports):", "for i in range(len(req_classes)):", 'R-C18-pairing'),
     # --- purity / FIFO shape
     _m('deq-pipe-no-copy', DELAY, "    s.pipeline[0] = clone_deepcopy(msg)\n\n  @non_blocking( lambda s: s.pipeline[-1] is not None )", "    s.pipeline[0] = msg\n\n  @non_blocking( lambda s: s.pipeline[-1] is not None )", 'R-C18-purity'),
     _m('deq-pipe-rotates-when-slot0-empty', DELAY, "        if s.pipeline[-1] is None:\n          s.pipeline.rotate()", "        if s.pipeline[0] is None:\n          s.pipeline.rotate()", 'R-C18-purity'),
@@ -2541,6 +2596,9 @@ EQUIV = [
         dict(file=CL, old="          # INV\n          elif  req.type_ == MemMsgType.INV:\n            resp = resp_classes[i]( req.type_, req.opaque, 0, 0, 0 )\n\n          # FLUSH\n          elif  req.type_ == MemMsgType.FLUSH:\n            resp = resp_classes[i]( req.type_, req.opaque, 0, 0, 0 )\n\n", new="")]),
     _m('stream-len0-decoded-with-or', STREAM, "          len_ = int(req.len)\n          if len_ == 0: len_ = req_classes[i].data_nbits >> 3\n", "          len_ = int(req.len) or req_classes[i].data_nbits // 8\n"),
     _m('write-helper-int-of-sum', BYTES, "    addr = int(addr)\n    end  = addr + nbytes\n", "    end  = int(addr) + nbytes\n    addr = int(addr)\n"),
+    _m('cl-port-loop-over-queue-list', CL, "for i in range(s.nports):", "for i in range(len(s.req_qs)):"),
+    _m('stream-memory-size-by-keyword', STREAM, "s.mem = MagicMemoryFL( mem_nbytes )", "nbytes = mem_nbytes\n    s.mem = MagicMemoryFL( mem_nbytes=nbytes )"),
+    _m('fl-amo-int-address', FL, "    ret = s.read( addr, nbytes )\n    s.write( addr, nbytes, AMO_FUNS", "    addr = int(addr)\n    ret = s.read( addr, nbytes )\n    s.write( addr, nbytes, AMO_FUNS"),
     _m('stall-rdy-conjuncts-swapped', STALL, "lambda s: s.stall_rgen.random() > s.stall_prob and s.send.rdy()", "lambda s: s.send.rdy() and s.stall_rgen.random() > s.stall_prob"),
 ]
 
